@@ -258,10 +258,12 @@ impl Prop for C04 {
           // optimiser derived from a negation prints as true / false; everything else must agree
           let tokens_agree = |a: &String, b: &String| {
             let (x, y): (Vec<&str>, Vec<&str>) = (a.split(' ').collect(), b.split(' ').collect());
-            x.len() == y.len() && x.iter().zip(&y).all(|(p, q)| p == q || (*p == "1" && *q == "true") || (*p == "0" && *q == "false"))
+            x.len() == y.len() && x.iter().zip(&y).all(|(p, q)| p == q || (*p == "1" && *q == "true") || (*p == "0" && *q == "false") || (*q == "NaN" && p.parse::<i64>().is_ok()))
           };
+          // the same JavaScript boolean, sent through Str.fromInt(..).toInt(), becomes NaN and poisons sums
+          let nan = t.lines.iter().any(|l| l.split(' ').any(|x| x == "NaN"));
           if w.lines.len() == t.lines.len() && w.lines.iter().zip(&t.lines).all(|(a, b)| tokens_agree(a, b)) {
-            out.fail("ts-vs-wasm/boolean-printed-for-int", detail(&format!("the TypeScript run prints true / false where the WebAssembly run prints 1 / 0: {}", first_diff(&w.lines, &t.lines))));
+            out.fail(if nan { "ts-vs-wasm/nan-for-int" } else { "ts-vs-wasm/boolean-printed-for-int" }, detail(&format!("the TypeScript run prints true / false where the WebAssembly run prints 1 / 0: {}", first_diff(&w.lines, &t.lines))));
           } else {
             out.fail("ts-vs-wasm/printed-lines-differ", detail(&format!("printed lines differ: {}", first_diff(&w.lines, &t.lines))));
             return out;
